@@ -13,6 +13,7 @@ import (
 	"runtime"
 	"sort"
 	"strings"
+	"sync/atomic"
 	"time"
 
 	"verif/simrt"
@@ -65,6 +66,7 @@ type Agg struct {
 	Policies    map[string]int64  `json:"policies"`
 	Procs       map[string]int64  `json:"gomaxprocs"`
 	TapeDraws   map[string]uint64 `json:"tape_draws"`
+	Extra       map[string]int64  `json:"extra"` // histograms of the workload actually generated
 	hashes      map[uint64]struct{}
 	nontrivial  map[uint64]struct{}
 	Samples     []interface{} `json:"samples"`
@@ -73,7 +75,7 @@ type Agg struct {
 
 func newAgg() *Agg {
 	return &Agg{Faults: map[string]int64{}, Probes: map[string]int64{}, Oracles: map[string]int64{}, PerScenario: map[string]int64{},
-		Policies: map[string]int64{}, Procs: map[string]int64{}, TapeDraws: map[string]uint64{}, hashes: map[uint64]struct{}{}, nontrivial: map[uint64]struct{}{}}
+		Policies: map[string]int64{}, Procs: map[string]int64{}, TapeDraws: map[string]uint64{}, Extra: map[string]int64{}, hashes: map[uint64]struct{}{}, nontrivial: map[uint64]struct{}{}}
 }
 
 func (rc *RunCtx) probe(name string, n int) {
@@ -87,6 +89,10 @@ func (rc *RunCtx) fault(name string, n int) {
 	}
 }
 func (rc *RunCtx) oracle(name string) { rc.agg.Oracles[rc.scen+"/"+name]++ }
+
+// hist counts one generated workload item (evidence: what the quantifier
+// actually ranged over).
+func (rc *RunCtx) hist(name string) { rc.agg.Extra["hist:"+rc.scen+"/"+name]++ }
 
 // declare makes a probe / fault kind appear in evidence even when it stays
 // at zero (so that "stuck at zero" is visible).
@@ -491,6 +497,7 @@ func main() {
 	}
 	agg := newAgg()
 	wo := &workerOut{Property: *prop, Seed: *seed, From: *from, To: *to, Race: simrt.RaceBuild, Agg: agg, KnownHits: map[string]*knownHit{}}
+	go hangMonitor(*seed, *replayDir, *outPath, wo)
 	knownSigs := map[string]bool{}
 	if *knownPath != "" {
 		var list []struct{ Property, Signature string }
@@ -510,6 +517,9 @@ func main() {
 		s := scs[run%len(scs)]
 		runSeed := simrt.Mix(*seed, hashString(*prop), hashString(s.Name), uint64(run))
 		t := simrt.NewTape(runSeed)
+		curRun.Store(int64(run))
+		curScenario.Store(s.Name)
+		curTape.Store(t)
 		races0 := simrt.RaceErrors()
 		v, rc, h := execute(s, t, agg, false)
 		agg.Runs++
@@ -609,6 +619,51 @@ func main() {
 		os.Exit(2)
 	}
 	if len(wo.Violations) > 0 {
+		os.Exit(1)
+	}
+}
+
+var (
+	curRun      atomic.Int64
+	curScenario atomic.Value
+	curTape     atomic.Value
+)
+
+// hangMonitor classifies a scheduler step that does not come back (DESIGN.md
+// section 2.6): if neither the run index nor the simulation's step counter
+// moves for 60 s of wall time, the goroutine holding the baton is spinning in
+// code under test (or blocked in a primitive the rewriter missed). The tape
+// drawn so far is saved as a replay file and the worker stops.
+func hangMonitor(seed uint64, replayDir, outPath string, wo *workerOut) {
+	lastRun, lastSteps, lastGs := int64(-1), -1, -1
+	stuck := 0
+	for {
+		time.Sleep(5 * time.Second)
+		r, st, gs := curRun.Load(), simrt.Steps(), simrt.NumGoroutine()
+		if r == lastRun && st == lastSteps && gs == lastGs && simrt.InSim() {
+			stuck++
+		} else {
+			stuck = 0
+		}
+		lastRun, lastSteps, lastGs = r, st, gs
+		if stuck < 12 {
+			continue
+		}
+		buf := make([]byte, 1<<16)
+		buf = buf[:runtime.Stack(buf, true)]
+		scen, _ := curScenario.Load().(string)
+		t, _ := curTape.Load().(*simrt.Tape)
+		rf := &replayFile{Property: activeProp, Scenario: scen, Oracle: scen + "/hang", Seed: seed, Run: int(r), RaceBuild: simrt.RaceBuild,
+			Msg: fmt.Sprintf("a simulated goroutine has not reached its next scheduling point for 60 s of wall time (step %d, %d goroutines): non-terminating loop in the code under test, or blocked in a primitive outside the simulator\n%s", st, gs, trimStack(string(buf)))}
+		if t != nil {
+			rf.Tape = t.Recorded()
+		}
+		path := writeReplay(replayDir, rf)
+		wo.Violations = append(wo.Violations, violationOut{Violation{activeProp, rf.Oracle, rf.Msg}, scen, int(r), path})
+		b, _ := json.Marshal(wo)
+		if outPath != "" {
+			os.WriteFile(outPath, b, 0o644)
+		}
 		os.Exit(1)
 	}
 }
